@@ -286,6 +286,10 @@ def P_error_kinds (d : ToolD) (ci : CallIn) (o : Obs) : Prop :=
     ((ci.h y).err = some .plain → o.res = .toolerr) ∧
     ((ci.h y).err = none → ∀ j, handlerJson d (ci.h y).out = some j → outputOk d j = false → o.res = .rpcerr)
 
+/-- The wrapper's contract on the content of errors (not C16's text): a tool error carries exactly one text
+block, the error message; a protocol error carries no result. -/
+def P_error_content (o : Obs) : Prop := (o.res = .toolerr → o.content = [.err]) ∧ (o.res = .rpcerr → o.content = [])
+
 /-- a typed nil pointer output is treated as the zero value of its element type: kind of result and
 structured content are those demanded of the same call with the handler returning that zero value -/
 def P_nil_pointer_zero (d : ToolD) (ci : CallIn) (o : Obs) : Prop :=
@@ -322,6 +326,8 @@ def FiresC (ci : CallIn) (o io : Obs) : Clause → Prop
   | .kindDiffers => o.inv = io.inv ∧ ¬ (io.inv = some false ∧ BadErrorAnswer o) ∧ o.res ≠ io.res ∧ io.res ≠ .ok
   | .scDiffers => o.inv = io.inv ∧ ¬ (io.inv = some false ∧ BadErrorAnswer o) ∧ o.res = io.res ∧ optCeq o.sc io.sc = false
   | .contentDiffers => o.inv = io.inv ∧ ¬ (io.inv = some false ∧ BadErrorAnswer o) ∧ o.res = io.res ∧ io.res = .ok ∧
+      o.content ≠ io.content
+  | .errContent => o.inv = io.inv ∧ ¬ (io.inv = some false ∧ BadErrorAnswer o) ∧ o.res = io.res ∧ io.res ≠ .ok ∧
       o.content ≠ io.content
   | _ => False
 
@@ -382,10 +388,14 @@ theorem monContract_fires {d : ToolD} {ci : CallIn} {o io : Obs} {c : Clause}
             · simp only [h6, if_true] at h; cases h
               exact ⟨e1, n3, e5, by simpa using h6⟩
             · simp only [h6, Bool.false_eq_true, if_false] at h
-              by_cases h7 : (io.res == Res.ok && o.content != io.content) = true
-              · simp only [h7, if_true] at h; cases h
-                simp only [Bool.and_eq_true, beq_iff_eq, bne_iff_ne, ne_eq] at h7
-                exact ⟨e1, n3, e5, h7.1, h7.2⟩
+              by_cases h7 : (o.content != io.content) = true
+              · simp only [h7, if_true] at h
+                have h7' : o.content ≠ io.content := by simpa using h7
+                by_cases h8 : (io.res == Res.ok) = true
+                · simp only [h8, if_true] at h; cases h
+                  exact ⟨e1, n3, e5, by simpa using h8, h7'⟩
+                · simp only [h8, Bool.false_eq_true, if_false] at h; cases h
+                  exact ⟨e1, n3, e5, by simpa using h8, h7'⟩
               · simp only [h7, Bool.false_eq_true, if_false] at h; cases h
 
 /-- the condition under which `monDiag` reports a clause -/
@@ -854,10 +864,6 @@ theorem sound_nilPtr (d : ToolD) (ci : CallIn) (o : Obs) (hsc : ci.Scripted)
 
 /-! ## the whole property, and the catch-all clause -/
 
-/-- The wrapper's contract on the content of errors (not C16's text): a tool error carries exactly one text
-block, the error message; a protocol error carries no result. -/
-def P_error_content (o : Obs) : Prop := (o.res = .toolerr → o.content = [.err]) ∧ (o.res = .rpcerr → o.content = [])
-
 /-- everything C16 (and the wrapper's error contract) says about one call -/
 structure P_C16 (d : ToolD) (ci : CallIn) (o : Obs) : Prop where
   no_crash : P_no_crash o
@@ -886,6 +892,26 @@ theorem demanded_not_ok_content {d : ToolD} {y : JVal} {r : HRet} :
     | some j =>
       simp only []
       cases ho : outputOk d j <;> simp
+
+/-- "the content of an error differs from the wrapper's contract" -/
+theorem sound_errContent (d : ToolD) (ci : CallIn) (o : Obs)
+    (h : monitor d ci o = some .errContent) : ¬ P_error_content o := by
+  rcases monitor_fires h with ⟨_, hc | hc⟩ | ⟨hc, _⟩ | ⟨_, _, hd | hc⟩
+  · cases hc
+  · cases hc
+  · cases hc
+  · exact hd.elim
+  · intro hP
+    obtain ⟨_, hn, h1, h2, h3⟩ := hc
+    apply h3
+    rcases result_side hn with ⟨y, hy, he⟩ | ⟨he, hr, _⟩
+    · obtain ⟨c1, c2⟩ := @demanded_not_ok_content d y (ci.h y)
+      simp only [io, obsOf, he] at h1 h2 ⊢
+      cases hk : (demanded d y (ci.h y)).kind with
+      | ok => rw [hk] at h2; exact absurd rfl h2
+      | rpcError => rw [c1 hk]; exact hP.2 (by rw [h1, hk]; rfl)
+      | toolError => rw [c2 hk]; exact hP.1 (by rw [h1, hk]; rfl)
+    · rw [(io_of_invalid he).2.2.2.2]; exact hP.1 hr
 
 /-- **the predicates determine the observation**: an observation that satisfies all of them is the ideal
 one (in every component the driver compares) -/
@@ -979,5 +1005,217 @@ theorem sound_pubOut (ownI : Schema) (ownO : Option Schema) (pi : Option Schema)
     · exact hs
   unfold pubClause at h
   cases hI : pubInOk ownI pi <;> simp [hI, hO] at h
+
+/-! ## the monitor accepts nothing but the ideal observation; the predicates are satisfiable -/
+
+theorem monContract_none {d : ToolD} {ci : CallIn} {o io : Obs} (h : monContract d ci o io = none) :
+    sameObs o io = true := by
+  unfold monContract at h
+  by_cases h1 : (o.inv != io.inv) = true
+  · simp only [h1, if_true] at h; split at h <;> cases h
+  · simp only [h1, Bool.false_eq_true, if_false] at h
+    have e1 : o.inv = io.inv := by simpa using h1
+    by_cases h2 : (!optCeq o.seen io.seen) = true
+    · simp only [h2, if_true] at h
+      split at h
+      · split at h <;> cases h
+      · cases h
+    · simp only [h2, Bool.false_eq_true, if_false] at h
+      have e2 : optCeq o.seen io.seen = true := by simpa using h2
+      split at h
+      · cases h
+      · split at h
+        · cases h
+        · by_cases h5 : (o.res != io.res) = true
+          · simp only [h5, if_true] at h
+            split at h
+            · cases h
+            · split at h <;> cases h
+          · simp only [h5, Bool.false_eq_true, if_false] at h
+            have e5 : o.res = io.res := by simpa using h5
+            by_cases h6 : (!optCeq o.sc io.sc) = true
+            · simp only [h6, if_true] at h; cases h
+            · simp only [h6, Bool.false_eq_true, if_false] at h
+              have e6 : optCeq o.sc io.sc = true := by simpa using h6
+              by_cases h7 : (o.content != io.content) = true
+              · simp only [h7, if_true] at h; split at h <;> cases h
+              · have e7 : o.content = io.content := by simpa using h7
+                simp only [sameObs, Bool.and_eq_true, beq_iff_eq]
+                exact ⟨⟨⟨⟨e1, e2⟩, e5⟩, e6⟩, e7⟩
+
+/-- **the monitor accepts only the ideal observation**: silence means equality with the wrapper run on
+exact numbers over the tool's own schemas, in every component -/
+theorem monitor_none (d : ToolD) (ci : CallIn) (o : Obs) (h : monitor d ci o = none) :
+    sameObs o (io d ci) = true := by
+  unfold monitor at h
+  simp only [] at h
+  split at h
+  · split at h <;> cases h
+  · split at h
+    · cases h
+    · split at h
+      · assumption
+      · cases hd : monDiag d ci o with
+        | some c => simp [hd] at h
+        | none => simp only [hd] at h; exact monContract_none h
+
+theorem JEq_refl (v : JVal) : JEq v v := rfl
+
+theorem optJEq_refl (o : Option JVal) : optJEq o o := by cases o <;> simp [optJEq, JEq_refl]
+
+/-- **the predicates are satisfiable, for every tool and every call**: the ideal observation satisfies
+all of them (so `¬ P_…` in the soundness theorems is never true for a trivial reason) -/
+theorem P_C16_ideal (d : ToolD) (ci : CallIn) : P_C16 d ci (io d ci) := by
+  have hres : ∀ k : Kind, resOf k ≠ .panic := resOf_ne_panic
+  rcases ideal_cases d ci with ⟨y, hy, he⟩ | ⟨hn, he⟩
+  · obtain ⟨i1, i2⟩ := io_of_valid he
+    have uniq : ∀ y', HandlerInput d ci y' → y' = y := fun y' h' => HandlerInput_unique h' hy
+    refine ⟨by simp [P_no_crash, io, obsOf, hres], ?_, fun _ => ⟨y, hy⟩, fun _ => i1, ?_, fun hn => absurd ⟨y, hy⟩ hn,
+      ?_, ?_, ?_, ?_, ?_, ?_⟩
+    · intro hs hr
+      have hk : (demanded d y (ci.h y)).kind = .ok := by
+        simp only [io, obsOf, he] at hr; exact resOf_eq_ok hr
+      have hst := ok_has_structured idEnv d.tool ci.h ci.args (by rw [← he] at hk; exact hk) hs
+      simpa [io, obsOf, ideal] using hst
+    · exact ⟨fun _ => ⟨y, y, i2, hy, JEq_refl y⟩, fun h => by rw [i1] at h; cases h⟩
+    · intro y' j hy' e hj ho hr
+      have := uniq y' hy'; subst this
+      have hk : (demanded d y' (ci.h y')).kind = .ok := by
+        simp only [io, obsOf, he] at hr; exact resOf_eq_ok hr
+      have := (demanded_kind_ok hk).2.1 j hj
+      rw [ho] at this; cases this
+    · intro y' hy' e ho
+      have := uniq y' hy'; subst this
+      simp only [io, obsOf, he]
+      unfold demanded
+      simp only [e]
+      cases hj : handlerJson d (ci.h y').out with
+      | none => rfl
+      | some j => simp [ho j hj, resOf]
+    · constructor
+      · intro hr y' hy' e
+        have := uniq y' hy'; subst this
+        have hk : (demanded d y' (ci.h y')).kind = .ok := by
+          simp only [io, obsOf, he] at hr; exact resOf_eq_ok hr
+        simp only [io, obsOf, he, (demanded_kind_ok hk).2.2.1]
+        exact optJEq_refl _
+      · intro hr
+        have hk : (demanded d y (ci.h y)).kind ≠ .ok := by
+          intro hk; apply hr; simp only [io, obsOf, he, hk, resOf]
+        simp only [io, obsOf, he, (demanded_kind_not_ok hk).1]
+    · intro hr y' hy' e
+      have := uniq y' hy'; subst this
+      have hk : (demanded d y' (ci.h y')).kind = .ok := by
+        simp only [io, obsOf, he] at hr; exact resOf_eq_ok hr
+      simp only [io, obsOf, he, (demanded_kind_ok hk).2.2.2]
+    · intro y' hy'
+      have := uniq y' hy'; subst this
+      simp only [io, obsOf, he]
+      unfold demanded
+      refine ⟨fun e => by simp [e, resOf], fun e => by simp [e, resOf], fun e j hj ho => by simp [e, hj, ho, resOf]⟩
+    · obtain ⟨c1, c2⟩ := @demanded_not_ok_content d y (ci.h y)
+      simp only [P_error_content, io, obsOf, he]
+      constructor
+      · intro hr
+        cases hk : (demanded d y (ci.h y)).kind with
+        | ok => rw [hk] at hr; cases hr
+        | rpcError => rw [hk] at hr; cases hr
+        | toolError => rw [c2 hk]; rfl
+      · intro hr
+        cases hk : (demanded d y (ci.h y)).kind with
+        | ok => rw [hk] at hr; cases hr
+        | toolError => rw [hk] at hr; cases hr
+        | rpcError => rw [c1 hk]; rfl
+  · obtain ⟨i1, i2, i3, i4, i5⟩ := io_of_invalid he
+    exact
+      { no_crash := by simp [P_no_crash, io, obsOf, hres]
+        success_has_structured := fun _ hr => by rw [i3] at hr; cases hr
+        invoked_only_if_valid := fun h => absurd i1 h
+        valid_is_invoked := fun hv => absurd hv hn
+        receives_exactly := ⟨fun h => (by rw [i1] at h; cases h), fun _ => i2⟩
+        invalid_gives_tool_error := fun _ => ⟨i3, (by rw [i5]; simp), i4⟩
+        invalid_output_is_error := fun y _ hy => absurd ⟨y, hy⟩ hn
+        valid_output_succeeds := fun y hy => absurd ⟨y, hy⟩ hn
+        structured_equals := ⟨fun hr => (by rw [i3] at hr; cases hr), fun _ => i4⟩
+        text_fallback := fun hr => by rw [i3] at hr; cases hr
+        error_kinds := fun y hy => absurd ⟨y, hy⟩ hn
+        error_content := ⟨fun _ => i5, fun hr => by rw [i3] at hr; cases hr⟩ }
+
+mutual
+/-- the integers a clause reports do differ, and the one that was sent / returned is an integer of the Go
+integer ranges beyond ±2^53 -/
+theorem numDiff_some : ∀ (w g : JVal) (p : String) (a b : Dec), numDiff w g = some (p, a, b) →
+    a.eq b = false ∧ bigGoInt a = true
+  | .num x, .num z, p, a, b, h => by
+    simp only [numDiff] at h
+    split at h
+    · cases h
+    · rename_i hc
+      simp only [Option.some.injEq, Prod.mk.injEq] at h
+      obtain ⟨_, rfl, rfl⟩ := h
+      simp only [Bool.or_eq_true, Bool.not_eq_true', not_or] at hc
+      exact ⟨by simpa using hc.1, by simpa using hc.2⟩
+  | .arr xs, .arr ys, p, a, b, h => by
+    simp only [numDiff] at h
+    split at h
+    · cases h
+    · exact numDiffList_some 0 xs ys p a b h
+  | .obj xs, .obj ys, p, a, b, h => by
+    simp only [numDiff] at h
+    exact numDiffFields_some xs ys p a b h
+  | .null, _, _, _, _, h => by simp [numDiff] at h
+  | .bool _, _, _, _, _, h => by simp [numDiff] at h
+  | .str _, _, _, _, _, h => by simp [numDiff] at h
+  | .num _, .null, _, _, _, h => by simp [numDiff] at h
+  | .num _, .bool _, _, _, _, h => by simp [numDiff] at h
+  | .num _, .str _, _, _, _, h => by simp [numDiff] at h
+  | .num _, .arr _, _, _, _, h => by simp [numDiff] at h
+  | .num _, .obj _, _, _, _, h => by simp [numDiff] at h
+  | .arr _, .null, _, _, _, h => by simp [numDiff] at h
+  | .arr _, .bool _, _, _, _, h => by simp [numDiff] at h
+  | .arr _, .str _, _, _, _, h => by simp [numDiff] at h
+  | .arr _, .num _, _, _, _, h => by simp [numDiff] at h
+  | .arr _, .obj _, _, _, _, h => by simp [numDiff] at h
+  | .obj _, .null, _, _, _, h => by simp [numDiff] at h
+  | .obj _, .bool _, _, _, _, h => by simp [numDiff] at h
+  | .obj _, .str _, _, _, _, h => by simp [numDiff] at h
+  | .obj _, .num _, _, _, _, h => by simp [numDiff] at h
+  | .obj _, .arr _, _, _, _, h => by simp [numDiff] at h
+theorem numDiffList_some : ∀ (i : Nat) (xs ys : List JVal) (p : String) (a b : Dec),
+    numDiffList i xs ys = some (p, a, b) → a.eq b = false ∧ bigGoInt a = true
+  | _, [], _, _, _, _, h => by simp [numDiffList] at h
+  | _, _ :: _, [], _, _, _, h => by simp [numDiffList] at h
+  | i, x :: xs, y :: ys, p, a, b, h => by
+    simp only [numDiffList] at h
+    cases hn : numDiff x y with
+    | some r =>
+      obtain ⟨p', a', b'⟩ := r
+      simp only [hn, Option.some.injEq, Prod.mk.injEq] at h
+      obtain ⟨_, rfl, rfl⟩ := h
+      exact numDiff_some x y p' a' b' hn
+    | none =>
+      simp only [hn] at h
+      exact numDiffList_some (i + 1) xs ys p a b h
+theorem numDiffFields_some : ∀ (xs ys : Fields) (p : String) (a b : Dec),
+    numDiffFields xs ys = some (p, a, b) → a.eq b = false ∧ bigGoInt a = true
+  | [], _, _, _, _, h => by simp [numDiffFields] at h
+  | (k, v) :: t, ys, p, a, b, h => by
+    simp only [numDiffFields] at h
+    cases hl : lookupJ k ys with
+    | none =>
+      simp only [hl] at h
+      exact numDiffFields_some t ys p a b h
+    | some w =>
+      simp only [hl] at h
+      cases hn : numDiff v w with
+      | none =>
+        simp only [hn, Option.map_none] at h
+        exact numDiffFields_some t ys p a b h
+      | some r =>
+        obtain ⟨p', a', b'⟩ := r
+        simp only [hn, Option.map_some, Option.some.injEq, Prod.mk.injEq] at h
+        obtain ⟨_, rfl, rfl⟩ := h
+        exact numDiff_some v w p' a' b' hn
+end
 
 end TypedTool
